@@ -38,7 +38,40 @@ Lemma strip_us_ext x us : all_us us = true -> strip_us (x ++ us) = strip_us x.
 Proof. intros H. unfold strip_us. rewrite rev_app_distr. rewrite (strip_us_rev_us us (rev x) H). reflexivity. Qed.
 
 Lemma frag_label_ext x us : all_us us = true -> frag_label (x ++ us) = frag_label x.
-Proof. intros H. unfold frag_label. rewrite lower_app, (lower_us us H). apply strip_us_ext. exact H. Qed.
+Proof. intros H. unfold frag_label. rewrite lower_app, (lower_us us H). rewrite strip_us_ext by exact H. reflexivity. Qed.
+
+(** stripping underscores at the end, with one more byte in front *)
+Lemma strip_us_rev_snoc a c :
+  strip_us_rev (a ++ [c]) = match strip_us_rev a with [] => if (c =? 95)%N then [] else [c] | y => y ++ [c] end.
+Proof.
+  induction a as [|x a IH]; simpl; [destruct (c =? 95)%N; reflexivity|].
+  destruct (x =? 95)%N; [exact IH | reflexivity].
+Qed.
+
+Lemma strip_us_cons c x :
+  strip_us (c :: x) = match strip_us x with [] => if (c =? 95)%N then [] else [c] | y => c :: y end.
+Proof.
+  unfold strip_us. simpl rev. rewrite strip_us_rev_snoc. destruct (strip_us_rev (rev x)) as [|y0 y] eqn:E; [simpl; destruct (c =? 95)%N; reflexivity|].
+  remember (y0 :: y) as yy eqn:Ey. rewrite rev_app_distr. change (rev [c]) with [c]. change ([c] ++ rev yy) with (c :: rev yy).
+  destruct (rev yy) eqn:E2; [|reflexivity].
+  apply (f_equal (@rev _)) in E2. rewrite rev_involutive in E2. subst yy. discriminate.
+Qed.
+
+(** a leading underscore does not change the label *)
+Lemma strip_both_us x : strip_us_rev (strip_us (95%N :: x)) = strip_us_rev (strip_us x).
+Proof. rewrite strip_us_cons. destruct (strip_us x); reflexivity. Qed.
+
+(** the label of the Go field made of a name is the label of the name - also for a name that begins
+    with "__", which [field_name] moves to the end *)
+Lemma frag_label_field_name n : frag_label (field_name n) = frag_label n.
+Proof.
+  unfold frag_label, field_name. rewrite lower_title.
+  destruct n as [|a [|b r]]; try reflexivity.
+  destruct ((a =? 95)%N && (b =? 95)%N) eqn:E; [|reflexivity].
+  apply andb_true_iff in E as [Ea Eb]. apply N.eqb_eq in Ea. apply N.eqb_eq in Eb. subst a b.
+  rewrite lower_app. change (lower_bytes [95%N; 95%N]) with [95%N; 95%N]. rewrite (strip_us_ext _ [95%N; 95%N] eq_refl).
+  change (lower_bytes (95%N :: 95%N :: r)) with (95%N :: 95%N :: lower_bytes r). rewrite !strip_both_us. reflexivity.
+Qed.
 
 Lemma exported_app x us : x <> [] -> exported (x ++ us) = exported x.
 Proof. destruct x; [contradiction | reflexivity]. Qed.
@@ -66,7 +99,6 @@ Section FinalDecode.
     In (k1, (T1, d1)) fields -> In (k2, (T2, d2)) fields -> nm k1 = nm k2 -> k1 = k2.
   Hypothesis Hext : forall k T dash, In (k, (T, dash)) fields ->
     exists us, nm k = field_name (untk k) ++ us /\ all_us us = true.
-  Hypothesis Huu : forall k T, In (k, (T, true)) fields -> starts_uu (untk k) = false.
   Hypothesis E3 : forall s, In s all -> sel_local S frs m s = true.
   Hypothesis E4 : has_fragment all = true -> is_object_type S m = true \/ exists k, first_typename all = Some k.
   Hypothesis E5 : forall k1 f1 k2 f2, In (k1, f1) (direct_fields all) -> In (k2, f2) (direct_fields all) ->
@@ -537,7 +569,7 @@ Section FinalDecode.
   Lemma dash_label k T : In (k, (T, true)) fields -> frag_label (nm k) = frag_label (untk k).
   Proof.
     intros He. destruct (Hext _ _ _ He) as [us [En Hus]]. rewrite En, (frag_label_ext _ us Hus).
-    unfold frag_label. pose proof (field_name_fold (untk k) (Huu _ _ He)) as Hf. apply equal_fold_eq in Hf. rewrite Hf. reflexivity.
+    apply frag_label_field_name.
   Qed.
 
   Lemma field_leaves_dash k T v : In (k, (T, true)) fields -> v <> VNil ->
@@ -696,7 +728,6 @@ Section CompositeDecodes.
     In (k1, (T1, d1)) fields -> In (k2, (T2, d2)) fields -> nm k1 = nm k2 -> k1 = k2.
   Hypothesis Hext : forall k T dash, In (k, (T, dash)) fields ->
     exists us, nm k = field_name (untk k) ++ us /\ all_us us = true.
-  Hypothesis Huu : forall k T, In (k, (T, true)) fields -> starts_uu (untk k) = false.
   Hypothesis E3 : forall s, In s all -> sel_local S frs m s = true.
   Hypothesis E4 : has_fragment all = true -> is_object_type S m = true \/ exists k, first_typename all = Some k.
   Hypothesis E5 : forall k1 f1 k2 f2, In (k1, f1) (direct_fields all) -> In (k2, f2) (direct_fields all) ->
@@ -725,7 +756,7 @@ Section CompositeDecodes.
     { intros s k k'. apply Qs_mono. }
     { intros s Hs. apply (Qs_exists S frs m d all fields conds FG F4 F5 F6 nm E3 E5 idx P HP Hsyn HspreadD tn rfs Hconf s Hs). }
     destruct (base_exists S m all fields FG F1 F3 nm Hnm Hext E5 E6 P tn rfs Hconf K HK) as [base [Hbase Hslots]].
-    destruct (final_value S frs HS m d all fields conds FG F1 F3 F4 F5 F6 E1 nm Hnm Hext Huu E3 E4 E6 idx P Hsyn tn rfs Hconf K HK base Hslots)
+    destruct (final_value S frs HS m d all fields conds FG F1 F3 F4 F5 F6 E1 nm Hnm Hext E3 E4 E6 idx P Hsyn tn rfs Hconf K HK base Hslots)
       as [sv' [Hrun Hl]].
     apply (decodes_intro P core _ _ (Datatypes.S K) (VStruct sv')); [|exact Hl].
     rewrite decode_S. unfold core, decode_body, fs, steps, tnKey in *.
